@@ -182,7 +182,7 @@ func (x *Exec) conv(dst, src types.Type, v Value) Value {
 			eb, _ := us.Elem().Underlying().(*types.Basic)
 			if eb != nil && eb.Kind() == types.Int32 {
 				var out []byte
-				for _, c := range s.a {
+				for _, c := range x.sl(s) {
 					t := c.(*Term)
 					if !t.IsConst() {
 						x.unsupported("[]rune->string of symbolic rune")
@@ -191,8 +191,8 @@ func (x *Exec) conv(dst, src types.Type, v Value) Value {
 				}
 				return x.strConst(string(out))
 			}
-			r := make(StrV, len(s.a))
-			for i, c := range s.a {
+			r := make(StrV, len(x.sl(s)))
+			for i, c := range x.sl(s) {
 				r[i] = c.(*Term)
 			}
 			return r
@@ -283,8 +283,8 @@ func (x *Exec) callBuiltin(caller *frame, fn *ssa.Builtin, args []Value) Value {
 				add[i] = c
 			}
 		case Slice:
-			add = make([]Value, len(s.a))
-			for i, c := range s.a {
+			add = make([]Value, len(x.sl(s)))
+			for i, c := range x.sl(s) {
 				add[i] = copyVal(c)
 			}
 			if len(add) == 0 {
@@ -294,7 +294,7 @@ func (x *Exec) callBuiltin(caller *frame, fn *ssa.Builtin, args []Value) Value {
 		if len(add) == 0 {
 			return dst
 		}
-		if len(dst.a)+len(add) > x.eng.cfg.MaxAlloc {
+		if len(x.sl(dst))+len(add) > x.eng.cfg.MaxAlloc {
 			x.unsupported("append beyond allocation bound")
 		}
 		n := len(dst.a)
@@ -330,9 +330,9 @@ func (x *Exec) callBuiltin(caller *frame, fn *ssa.Builtin, args []Value) Value {
 				src[i] = c
 			}
 		case Slice:
-			src = s.a
+			src = x.sl(s)
 		}
-		n := len(dst.a)
+		n := len(x.sl(dst))
 		if len(src) < n {
 			n = len(src)
 		}
@@ -355,6 +355,9 @@ func (x *Exec) callBuiltin(caller *frame, fn *ssa.Builtin, args []Value) Value {
 		case StrV:
 			return tc.Const(64, uint64(len(a)))
 		case Slice:
+			if a.virt != nil {
+				return a.virt
+			}
 			return tc.Const(64, uint64(len(a.a)))
 		case Array:
 			return tc.Const(64, uint64(len(a)))
@@ -375,6 +378,9 @@ func (x *Exec) callBuiltin(caller *frame, fn *ssa.Builtin, args []Value) Value {
 	case "cap":
 		switch a := args[0].(type) {
 		case Slice:
+			if a.virt != nil {
+				return a.virt
+			}
 			return tc.Const(64, uint64(cap(a.a)))
 		case Array:
 			return tc.Const(64, uint64(len(a)))
@@ -422,7 +428,7 @@ func (x *Exec) callBuiltin(caller *frame, fn *ssa.Builtin, args []Value) Value {
 			}
 			a.live = 0
 		case Slice:
-			for i := range a.a {
+			for i := range x.sl(a) {
 				a.a[i] = zeroLike(tc, a.a[i])
 			}
 		}
